@@ -4,6 +4,7 @@ import (
 	"bytes"
 	"fmt"
 	"strings"
+	"time"
 
 	"github.com/cocosip/go-dicom-codecs/jpeg/baseline"
 	jllp "github.com/cocosip/go-dicom-codecs/jpeg/lossless"
@@ -389,8 +390,8 @@ func c08CorrJLS(c *hx.Ctx) {
 	}
 }
 
-// c08CorrJ2K: codestream.Parser.Parse vs J2kH.parse: main header (SIZ/COD/COC/QCD/QCC/POC/RGN/COM/unknown), tile-parts
-// (SOT, tile-part header, SOD, data by Psot or by marker scan), tile-part merging, EOC / end of data.  MCT/MCC/MCO never occur.
+// c08CorrJ2K: codestream.Parser.Parse vs J2kH.parse: main header (SIZ/COD/COC/QCD/QCC/POC/RGN/COM/MCT/MCC/MCO/unknown), tile-parts
+// (SOT, tile-part header, SOD, data by Psot or by marker scan), tile-part merging, EOC / end of data.
 func c08CorrJ2K(c *hx.Ctx) {
 	r := hx.NewRand(c.Seed ^ 0xC0806)
 	be32 := func(v int) []byte { return []byte{byte(v >> 24), byte(v >> 16), byte(v >> 8), byte(v)} }
@@ -424,7 +425,7 @@ func c08CorrJ2K(c *hx.Ctx) {
 		}
 		mkCOD := func() []byte {
 			lv := r.Intn(4)
-			cod := []byte{byte(r.Intn(2)), byte(r.Intn(5)), 0, byte(r.Intn(3)), byte(r.Intn(2)), byte(lv), byte(pickv([]int{2, 2, 4, 6}, []int{2, 2, 4, 6, 7, 9})), byte(pickv([]int{2, 2, 1}, []int{2, 2, 4, 1, 7})), 0, 1}
+			cod := []byte{byte(r.Intn(2)), byte(r.Intn(5)), 0, byte(r.Intn(3)), byte(r.Intn(2)), byte(lv), byte(pickv([]int{2, 2, 4, 6}, []int{2, 2, 4, 6, 7, 9, 252, 253, 254, 255, 3})), byte(pickv([]int{2, 2, 1}, []int{2, 2, 4, 1, 7, 3, 4, 5, 12, 253, 252})), 0, 1}
 			if cod[0]&1 == 1 {
 				for i := 0; i <= lv; i++ {
 					cod = append(cod, byte(r.Pick([]int{0x55, 0xff, 0x11})))
@@ -482,8 +483,68 @@ func c08CorrJ2K(c *hx.Ctx) {
 				return []byte{0xFF, byte(r.Pick([]int{0x5C, 0x64, 0x5D, 0x5E, 0x5F, 0x53})), 0, byte(l), 0x40, 0, 0}[:4+r.Intn(4)]
 			}
 		}
+		mkMCT := func() []byte {
+			imct := r.Intn(4) | r.Intn(4)<<8 | r.Intn(4)<<10
+			pl := []byte{0, byte(pickv([]int{0}, []int{0, 0, 1})), byte(imct >> 8), byte(imct), 0, byte(pickv([]int{0}, []int{0, 0, 2}))}
+			pl = append(pl, r.Bytes(r.Pick([]int{0, 4, 8, 16, 36}))...)
+			sg := c08MkSeg(0x74, pl)
+			if wild && r.Intn(4) == 0 {
+				sg[3] = byte(r.Intn(9))
+			}
+			return sg
+		}
+		mkMCC := func() []byte {
+			n, m2 := r.Intn(4), r.Intn(4)
+			w1, w2 := r.Intn(6) == 0, r.Intn(6) == 0
+			pl := []byte{0, byte(pickv([]int{0}, []int{0, 0, 1})), byte(r.Intn(4)), 0, byte(pickv([]int{0}, []int{0, 0, 3})), 0, byte(pickv([]int{1}, []int{1, 1, 0})), byte(r.Intn(3))}
+			put := func(k int, wide bool) {
+				c := k
+				if wide {
+					c |= 0x8000
+				}
+				pl = append(pl, byte(c>>8), byte(c))
+				for i := 0; i < k; i++ {
+					if wide {
+						pl = append(pl, 0)
+					}
+					pl = append(pl, byte(r.Intn(5)))
+				}
+			}
+			put(n, w1)
+			put(m2, w2)
+			pl = append(pl, byte(r.Intn(2)), byte(r.Intn(4)), byte(r.Intn(4)))
+			pl = append(pl, r.Bytes(r.Intn(2)*r.Intn(3))...)
+			sg := c08MkSeg(0x75, pl)
+			if wild && r.Intn(3) == 0 {
+				l := len(sg) - 2 + r.Range(-4, 3)
+				if l < 0 {
+					l = 0
+				}
+				sg[2], sg[3] = byte(l>>8), byte(l)
+			}
+			return sg
+		}
+		mkMCO := func() []byte {
+			n := r.Intn(4)
+			pl := append([]byte{byte(n)}, r.Bytes(n)...)
+			pl = append(pl, r.Bytes(r.Intn(2)*r.Intn(3))...)
+			sg := c08MkSeg(0x77, pl)
+			if wild && r.Intn(3) == 0 {
+				sg[3] = byte(r.Intn(8))
+			}
+			return sg
+		}
 		var segs [][]byte
 		segs = append(segs, c08MkSeg(0x51, siz), mkCOD(), mkQCD())
+		if r.Intn(4) == 0 {
+			segs = append(segs, mkMCT())
+			if r.Intn(2) == 0 {
+				segs = append(segs, mkMCC())
+			}
+			if r.Intn(2) == 0 {
+				segs = append(segs, mkMCO())
+			}
+		}
 		for extra := r.Intn(5); extra > 0; extra-- {
 			switch r.Intn(6) {
 			case 0:
@@ -554,7 +615,16 @@ func c08CorrJ2K(c *hx.Ctx) {
 				case 5:
 					hdr = append(hdr, mkRGN()...)
 				default:
-					hdr = append(hdr, mkOther()...)
+					switch r.Intn(6) {
+					case 0:
+						hdr = append(hdr, mkMCT()...)
+					case 1:
+						hdr = append(hdr, mkMCC()...)
+					case 2:
+						hdr = append(hdr, mkMCO()...)
+					default:
+						hdr = append(hdr, mkOther()...)
+					}
 				}
 			}
 			data := r.Bytes(r.Intn(8))
@@ -594,9 +664,6 @@ func c08CorrJ2K(c *hx.Ctx) {
 		if wild && r.Intn(2) == 0 {
 			b = c08MutBytes(r, b)
 		}
-		if c08HasPair(b, 0x74, 0x75, 0x77) {
-			continue
-		}
 		var line string
 		if p, _ := hx.Guard(func() {
 			csm, err := codestream.NewParser(b).Parse()
@@ -609,8 +676,8 @@ func c08CorrJ2K(c *hx.Ctx) {
 				dl += len(t.Data)
 			}
 			var sb strings.Builder
-			fmt.Fprintf(&sb, "ok %d %d %d %d %d %d %d %d %d %d %d %d %d %d", csm.SIZ.Xsiz, csm.SIZ.Ysiz, csm.SIZ.XOsiz, csm.SIZ.YOsiz, csm.SIZ.XTsiz, csm.SIZ.YTsiz,
-				csm.SIZ.Csiz, len(csm.COC), len(csm.QCC), len(csm.POC), len(csm.RGN), len(csm.COM), len(csm.Tiles), dl)
+			fmt.Fprintf(&sb, "ok %d %d %d %d %d %d %d %d %d %d %d %d %d %d %d %d %d", csm.SIZ.Xsiz, csm.SIZ.Ysiz, csm.SIZ.XOsiz, csm.SIZ.YOsiz, csm.SIZ.XTsiz, csm.SIZ.YTsiz,
+				csm.SIZ.Csiz, len(csm.COC), len(csm.QCC), len(csm.POC), len(csm.RGN), len(csm.COM), len(csm.MCT), len(csm.MCC), len(csm.MCO), len(csm.Tiles), dl)
 			cd := csm.COD
 			fmt.Fprintf(&sb, " | %d %d %d %d %d %d %d %d %d", cd.Scod, cd.ProgressionOrder, cd.NumberOfLayers, cd.MultipleComponentTransform,
 				cd.NumberOfDecompositionLevels, cd.CodeBlockWidth, cd.CodeBlockHeight, cd.CodeBlockStyle, cd.Transformation)
@@ -637,6 +704,11 @@ func c08CorrRLE(c *hx.Ctx) {
 	if c.Thorough() {
 		n = 4000
 	}
+	// the decodes run in child processes (entry point rle-codec-hex) under the watchdog: a decoder that does not
+	// terminate shows as a `timeout` line that disagrees with the model instead of hanging the harness
+	t := c08TargetIdx("rle-codec-hex")
+	var jobs []c08Job
+	var descs []rleInfo
 	for k := 0; k < n; k++ {
 		d := rleDescs[r.Intn(len(rleDescs))]
 		d.W, d.H = r.Range(1, 9), r.Range(1, 9)
@@ -646,7 +718,7 @@ func c08CorrRLE(c *hx.Ctx) {
 			continue
 		}
 		m := append([]byte{}, enc...)
-		switch r.Intn(7) {
+		switch r.Intn(9) {
 		case 0:
 			m = m[:r.Intn(len(m)+1)]
 		case 1:
@@ -671,9 +743,26 @@ func c08CorrRLE(c *hx.Ctx) {
 			o := 4 + 4*r.Intn(15)
 			v := r.Pick([]int{0, 1, 63, 64, 65, len(m) - 1, len(m), len(m) + 1, 1 << 20})
 			m[o], m[o+1], m[o+2], m[o+3] = byte(v), byte(v>>8), byte(v>>16), byte(v>>24)
+		case 7, 8:
+			// control byte 0x80 (no operation) at body positions, among them control positions
+			for j := 0; j < 1+r.Intn(3) && len(m) > 64; j++ {
+				m[64+r.Intn(len(m)-64)] = 0x80
+			}
 		}
-		dec, od := rleReal(false, d, m)
-		c.Case(d.op("rle-dec", m), outcomeLine(dec, od))
-		c.Count("corr:rle-dec:" + od[:2])
+		jobs = append(jobs, c08Job{Target: t, FI: [5]uint16{uint16(d.W), uint16(d.H), uint16(d.BA), uint16(d.SPP), uint16(d.PL)}, Data: m, S: -1})
+		descs = append(descs, d)
+	}
+	res := c09RunJobsWD(jobs, c09Workers(), 5*time.Second)
+	for k := range jobs {
+		line := res[k].Outcome
+		switch res[k].Outcome {
+		case "ok":
+			line = "ok " + res[k].Text
+		case "err", "panic":
+		default:
+			line = "no-answer:" + res[k].Outcome
+		}
+		c.Case(descs[k].op("rle-dec", jobs[k].Data), line)
+		c.Count("corr:rle-dec:" + strings.Fields(line)[0])
 	}
 }
